@@ -125,19 +125,19 @@ abbrev Tok := Tree TokL
 
 namespace TyExpr
 
+/-- parenthesise a token list unless the place accepts it as it is -/
+def wrap (ok : Bool) (body : List Tok) : List Tok := if ok then body else [.node .paren body]
+
 /-- tokens of `e` when it is written at a place that accepts class `lvl` or higher
-    (parenthesised if its own class is lower) -/
+    (parenthesised if its own class `level e` is lower) -/
 def toksAt : Nat → TyExpr → List Tok
-  | lvl, e =>
-    let body : List Tok := match e with
-      | prim n => [.node (.name n) []]
-      | var n => [.node (.pvar n) []]
-      | fvar n r => [.node (.pvar n) [], .node .brack (toksAt 0 r)]
-      | infx op a b => toksAt 1 a ++ [.node (.op op) []] ++ toksAt 0 b
-      | generic n a => toksAt 1 a ++ [.node (.name n) []]
-      | optional a => toksAt 1 a ++ [.node (.name OPTIONAL) []]
-      | union a b => toksAt 1 a ++ [.node .bar []] ++ toksAt 3 b
-    if lvl ≤ level e then body else [.node .paren body]
+  | _, prim n => [.node (.name n) []]
+  | _, var n => [.node (.pvar n) []]
+  | lvl, fvar n r => wrap (lvl ≤ 2) [.node (.pvar n) [], .node .brack (toksAt 0 r)]
+  | lvl, infx op a b => wrap (lvl ≤ 0) (toksAt 1 a ++ [.node (.op op) []] ++ toksAt 0 b)
+  | lvl, generic n a => wrap (lvl ≤ 1) (toksAt 1 a ++ [.node (.name n) []])
+  | lvl, optional a => wrap (lvl ≤ 1) (toksAt 1 a ++ [.node (.name OPTIONAL) []])
+  | lvl, union a b => wrap (lvl ≤ 1) (toksAt 1 a ++ [.node .bar []] ++ toksAt 3 b)
 
 /-- the token stream of a whole type expression -/
 def toks (e : TyExpr) : List Tok := toksAt 0 e
